@@ -30,26 +30,77 @@ import (
 	"pgregory.net/rapid"
 )
 
+type failer interface {
+	Fatalf(format string, args ...interface{})
+}
+
 type sim struct {
-	t      *rapid.T
-	spec   *vnode.Spec
-	n      int
-	nodes  []*vnode.Node
-	bpOf   map[int]int            // producer index (slot owner) -> key index
-	parent map[string]string      // block hash -> parent hash (all blocks ever produced)
-	height map[string]uint64      // block hash -> number
-	signer map[string]int         // block hash -> key index of the producer
-	blocks map[string]*types.Block
-	lastNo []uint64 // per producer: number of its previous block
-	libNo  []uint64 // per node: highest LIB reported so far
-	libID  []string
-	frozen []map[uint64]string // per node: main-chain hash per height at or below the LIB, once seen
-	hist   []string
+	t                            failer
+	spec                         *vnode.Spec
+	n                            int
+	nodes                        []*vnode.Node
+	bpOf                         map[int]int       // producer index (slot owner) -> key index
+	parent                       map[string]string // block hash -> parent hash (all blocks ever produced)
+	height                       map[string]uint64 // block hash -> number
+	signer                       map[string]int    // block hash -> key index of the producer
+	blocks                       map[string]*types.Block
+	lastNo                       []uint64 // per producer: number of its previous block
+	libNo                        []uint64 // per node: highest LIB reported so far
+	libID                        []string
+	frozen                       []map[uint64]string // per node: main-chain hash per height at or below the LIB, once seen
+	hist                         []string
 	libAdvances, forks, restarts int
+	// private branch of a misbehaving producer: its tip and the number of its previous block on it
+	private               map[int]*types.Block
+	privLast              map[int]uint64
+	privateExt, overtakes int
+	finality, forkChoice  bool // which oracles are judged (C08 / the irreversibility clause of C07)
 }
 
 func (s *sim) fail(format string, a ...interface{}) {
+	if !s.finality {
+		return // the finality clauses belong to C08 and are judged by its unit
+	}
 	s.t.Fatalf("%s\nhistory: %s", fmt.Sprintf(format, a...), strings.Join(s.hist, " | "))
+}
+
+// checkForkChoice: no branch that node x has stored completely, that is strictly longer than its main chain and
+// that does not fork below its last irreversible block may be left unadopted (C07). The veto is decided with the LIB
+// at the arrival that completed the branch, which is never above the current one, and the main chain never gets
+// shorter, so the statement holds at every observation point.
+func (s *sim) checkForkChoice(x int, where string) {
+	nd := s.nodes[x]
+	best := nd.Best()
+	lib := s.libNo[x]
+	onMain := func(h string) bool {
+		got, err := nd.CS.GetHashByNo(s.height[h])
+		return err == nil && string(got) == h
+	}
+	for h, b := range s.blocks {
+		if b.BlockNo() <= best.BlockNo() {
+			continue
+		}
+		complete := true
+		cur := h
+		for !onMain(cur) {
+			if _, err := nd.CS.GetBlock([]byte(cur)); err != nil {
+				complete = false
+				break
+			}
+			cur = s.parent[cur]
+			if cur == "" {
+				complete = false
+				break
+			}
+		}
+		if !complete {
+			continue
+		}
+		if root := s.height[cur]; root >= lib {
+			s.t.Fatalf("%s: node %d has stored a complete branch up to block %d/%x that forks from its main chain at height %d (LIB %d), its best block is only %d/%x: a strictly longer valid branch that does not fork below the irreversible block was not adopted\nhistory: %s",
+				where, x, b.BlockNo(), []byte(h)[:4], root, lib, best.BlockNo(), best.BlockHash()[:4], strings.Join(s.hist, " | "))
+		}
+	}
 }
 
 func (s *sim) isAncestor(anc, desc string) bool {
@@ -77,10 +128,12 @@ func (s *sim) observe(x int, where string) {
 		if err != nil || lb.ID() != id {
 			s.fail("%s: node %d reports LIB %d/%s, but its main chain has another block at that height (err %v)", where, x, no, id, err)
 		}
-		// support: blocks of more than 2n/3 distinct producers from the LIB up to the tip
+		// support, judged when the LIB advances: blocks of more than 2n/3 distinct producers from the LIB up to the
+		// tip. (Later the node may legitimately switch to a longer branch forking exactly at the LIB, whose blocks
+		// above it come from fewer producers: the block stays irreversible.)
 		prod := map[int]bool{}
 		cur := best
-		for cur.BlockNo() >= no && cur.BlockNo() > 0 {
+		for no > s.libNo[x] && cur.BlockNo() >= no && cur.BlockNo() > 0 {
 			prod[s.signer[string(cur.BlockHash())]] = true
 			p, err := nd.CS.GetBlock(cur.GetHeader().GetPrevBlockHash())
 			if err != nil {
@@ -88,7 +141,7 @@ func (s *sim) observe(x int, where string) {
 			}
 			cur = p
 		}
-		if need := s.n*2/3 + 1; len(prod) < need {
+		if need := s.n*2/3 + 1; no > s.libNo[x] && len(prod) < need {
 			s.fail("%s: node %d reports LIB %d although only %d distinct producers (of %d, %d needed) have blocks from it up to the tip %d", where, x, no, len(prod), s.n, need, best.BlockNo())
 		}
 	}
@@ -124,6 +177,10 @@ func (s *sim) deliver(x int, b *types.Block, where string) {
 	nd.Enter()
 	preLib := s.libNo[x]
 	err := nd.AddPeer(b)
+	if ev.IntEnv("VERIF_C08_TRACE", 0) > 0 {
+		no, id := nd.DPoS.VerifLIB()
+		fmt.Printf("TRACE %s: err=%v best=%d/%x lib=%d/%s\n", where, err, nd.Best().BlockNo(), nd.Best().BlockHash()[:4], no, id)
+	}
 	if b.BlockNo() <= preLib && err == nil {
 		// refused blocks at or below the LIB: accepted only if it is the block already there
 		if h, e := nd.CS.GetHashByNo(b.BlockNo()); e != nil || !bytes.Equal(h, b.BlockHash()) {
@@ -131,74 +188,119 @@ func (s *sim) deliver(x int, b *types.Block, where string) {
 		}
 	}
 	s.observe(x, where)
+	if s.forkChoice {
+		s.checkForkChoice(x, where)
+	}
 }
 
 func TestC08Finality(t *testing.T) {
 	rec := ev.New("C08", "finality")
 	defer rec.Flush()
-	rapid.Check(t, func(t *rapid.T) {
-		n := rapid.IntRange(1, 4).Draw(t, "producers")
-		opts := vnode.WorldOpts{Consensus: "dpos", Public: false, NUsers: 1, NBPs: n, Magic: "verif.c08"}
-		spec := vnode.NewSpec(opts)
-		spec.RealDPoS = true
-		s := &sim{t: t, spec: spec, n: n, bpOf: map[int]int{}, parent: map[string]string{}, height: map[string]uint64{}, signer: map[string]int{}, blocks: map[string]*types.Block{}}
-		defer func() {
-			for _, nd := range s.nodes {
-				nd.Remove()
-			}
-		}()
-		for i := 0; i < n; i++ {
-			nd, err := vnode.Open(spec, "")
-			if err != nil {
-				t.Fatalf("open node %d: %v", i, err)
-			}
-			s.nodes = append(s.nodes, nd)
-			s.frozen = append(s.frozen, map[uint64]string{})
+	rapid.Check(t, func(t *rapid.T) { simulate(t, rec, true, false) })
+}
+
+// TestC07DPoSForkChoice runs the same simulation and judges the fork-choice statement of C07 in the presence of the
+// real finality veto: longer branches forking at or above the irreversible block are adopted (those below it are not:
+// that half is C08's "never replaced").
+func TestC07DPoSForkChoice(t *testing.T) {
+	rec := ev.New("C07", "dpos-forkchoice")
+	defer rec.Flush()
+	rapid.Check(t, func(t *rapid.T) { simulate(t, rec, false, true) })
+}
+
+// newSim opens n real DPoS nodes sharing one genesis.
+func newSim(t failer, n int, finality, forkChoice bool) *sim {
+	opts := vnode.WorldOpts{Consensus: "dpos", Public: false, NUsers: 1, NBPs: n, Magic: "verif.c08"}
+	spec := vnode.NewSpec(opts)
+	spec.RealDPoS = true
+	s := &sim{t: t, spec: spec, n: n, bpOf: map[int]int{}, parent: map[string]string{}, height: map[string]uint64{}, signer: map[string]int{}, blocks: map[string]*types.Block{},
+		private: map[int]*types.Block{}, privLast: map[int]uint64{}, finality: finality, forkChoice: forkChoice}
+	for i := 0; i < n; i++ {
+		nd, err := vnode.Open(spec, "")
+		if err != nil {
+			t.Fatalf("open node %d: %v", i, err)
 		}
-		s.libNo, s.libID, s.lastNo = make([]uint64, n), make([]string, n), make([]uint64, n)
-		s.nodes[0].Enter()
-		s.nodes[0].SwitchTo()
-		for k := 0; k < n; k++ {
-			idx := s.nodes[0].DPoS.VerifBpIndex(vnode.BPN(k).ID)
-			if idx < 0 {
-				t.Fatalf("harness: producer %d not in the genesis producer set", k)
-			}
-			s.bpOf[idx] = k
+		s.nodes = append(s.nodes, nd)
+		s.frozen = append(s.frozen, map[uint64]string{})
+	}
+	s.libNo, s.libID, s.lastNo = make([]uint64, n), make([]string, n), make([]uint64, n)
+	s.nodes[0].Enter()
+	s.nodes[0].SwitchTo()
+	for k := 0; k < n; k++ {
+		idx := s.nodes[0].DPoS.VerifBpIndex(vnode.BPN(k).ID)
+		if idx < 0 {
+			t.Fatalf("harness: producer %d not in the genesis producer set", k)
 		}
-		gen := s.nodes[0].Best()
-		s.height[string(gen.BlockHash())] = 0
+		s.bpOf[idx] = k
+	}
+	gen := s.nodes[0].Best()
+	s.height[string(gen.BlockHash())] = 0
+	return s
+}
+
+func (s *sim) close() {
+	for _, nd := range s.nodes {
+		nd.Remove()
+	}
+}
+
+// mkBlock makes producer k's block on prev (built on node nd), with the confirmation range the block factory
+// would put: its number minus the number of the producer's previous block.
+func (s *sim) mkBlock(k int, nd *vnode.Node, prev *types.Block, ts int64, last uint64) *types.Block {
+	nd.Enter()
+	p, err := nd.Produce(prev, ts, nil, nil)
+	if err != nil {
+		s.t.Fatalf("produce: %v", err)
+	}
+	b := p.Block
+	b.SetConfirms(b.BlockNo() - last)
+	if err := b.Sign(vnode.BPN(k).Priv); err != nil {
+		s.t.Fatalf("sign: %v", err)
+	}
+	b.Hash = nil
+	b.Hash = b.BlockHash()
+	h := string(b.BlockHash())
+	s.parent[h], s.height[h], s.signer[h], s.blocks[h] = string(prev.BlockHash()), b.BlockNo(), k, b
+	return b
+}
+
+// slotTime is the instant inside slot j at which its owner produces; slots lie in the past so that no block is
+// "future", at a fixed instant: the schedule must not depend on the wall clock.
+func slotTime(j int) int64 { return int64(1600000000)*1e9 + int64(j)*1e9 + 300e6 }
+
+func (s *sim) ownerOf(j int) int {
+	return s.bpOf[int(slot.NewFromUnixNano(slotTime(j)).NextBpIndex(uint16(s.n)))]
+}
+
+func simulate(t *rapid.T, rec *ev.Rec, finality, forkChoice bool) {
+	{
+		n := rapid.SampledFrom([]int{1, 2, 3, 4, 4, 4}).Draw(t, "producers") // only n=4 tolerates a misbehaving producer
+		s := newSim(t, n, finality, forkChoice)
+		defer s.close()
+		spec := s.spec
 		f := (n - 1) / 3
 		equivocators := map[int]bool{}
-		// slots lie in the past so that no block is "future"
-		base := int64(1600000000) * 1e9 // a fixed instant in the past: the schedule must not depend on the wall clock
 		nslots := rapid.IntRange(4, 36).Draw(t, "slots")
+		// from this slot on the correct producers mostly stay silent while a misbehaving one keeps extending its
+		// private branch in its own slots: the only way such a branch can outgrow the main chain
+		attackFrom := nslots + 1
+		attack := f > 0 && rapid.Bool().Draw(t, "attack")
+		// the silence starts a few slots after the fork (so that the irreversible block ends up anywhere around the
+		// fork point) and is complete or nearly so
+		quietOutOf := 6
+		if attack && rapid.Bool().Draw(t, "totalSilence") {
+			quietOutOf = 1000
+		}
 		type pending struct {
 			at, node int
 			b        *types.Block
 		}
 		var queue []pending
 		recomputeDiffers, lastDiff := 0, ""
-		mkBlock := func(k int, nd *vnode.Node, prev *types.Block, ts int64) *types.Block {
-			nd.Enter()
-			p, err := nd.Produce(prev, ts, nil, nil)
-			if err != nil {
-				t.Fatalf("produce: %v", err)
-			}
-			b := p.Block
-			b.SetConfirms(b.BlockNo() - s.lastNo[k])
-			if err := b.Sign(vnode.BPN(k).Priv); err != nil {
-				t.Fatalf("sign: %v", err)
-			}
-			b.Hash = nil
-			b.Hash = b.BlockHash()
-			h := string(b.BlockHash())
-			s.parent[h], s.height[h], s.signer[h], s.blocks[h] = string(prev.BlockHash()), b.BlockNo(), k, b
-			return b
-		}
+		mkBlock := s.mkBlock
 		for j := 0; j < nslots; j++ {
-			ts := base + int64(j)*1e9 + 300e6
-			owner := int(slot.NewFromUnixNano(ts).NextBpIndex(uint16(n)))
-			k := s.bpOf[owner]
+			ts := slotTime(j)
+			k := s.ownerOf(j)
 			// deliveries that are due
 			var rest []pending
 			sort.SliceStable(queue, func(a, b int) bool { return queue[a].at < queue[b].at })
@@ -211,6 +313,15 @@ func TestC08Finality(t *testing.T) {
 			}
 			queue = rest
 			act := rapid.SampledFrom([]string{"produce", "produce", "produce", "produce", "produce", "skip", "equivocate", "restart"}).Draw(t, "act")
+			if j >= attackFrom && !equivocators[k] && act != "restart" && rapid.IntRange(0, quietOutOf-1).Draw(t, "quiet") > 0 {
+				act = "skip"
+			}
+			if attack && s.private[k] == nil && (equivocators[k] || len(equivocators) < f) && act == "produce" && rapid.Bool().Draw(t, "startFork") {
+				act = "equivocate"
+			}
+			if equivocators[k] && s.private[k] != nil && (j >= attackFrom || rapid.IntRange(0, 2).Draw(t, "extendPrivate") == 0) {
+				act = "private"
+			}
 			switch act {
 			case "skip":
 				s.hist = append(s.hist, fmt.Sprintf("s%d:skip(p%d)", j, k))
@@ -251,19 +362,35 @@ func TestC08Finality(t *testing.T) {
 			nd := s.nodes[k]
 			nd.Enter()
 			best := nd.Best()
-			b := mkBlock(k, nd, best, ts)
-			desc := fmt.Sprintf("s%d:p%d->%d", j, k, b.BlockNo())
-			var extra *types.Block
-			if act == "equivocate" && best.BlockNo() > 0 && (equivocators[k] || len(equivocators) < f) {
-				equivocators[k] = true
-				pp, err := nd.CS.GetBlock(best.GetHeader().GetPrevBlockHash())
-				if err == nil {
-					extra = mkBlock(k, nd, pp, ts+1e6)
-					desc += fmt.Sprintf("+equiv@%d", extra.BlockNo())
-					s.forks++
+			var b, extra *types.Block
+			var desc string
+			if act == "private" {
+				// the misbehaving producer builds on its private branch instead of the best block
+				b = mkBlock(k, nd, s.private[k], ts, s.privLast[k])
+				s.private[k], s.privLast[k] = b, b.BlockNo()
+				s.privateExt++
+				if b.BlockNo() > best.BlockNo() {
+					s.overtakes++
 				}
+				desc = fmt.Sprintf("s%d:p%d->private %d", j, k, b.BlockNo())
+			} else {
+				b = mkBlock(k, nd, best, ts, s.lastNo[k])
+				desc = fmt.Sprintf("s%d:p%d->%d", j, k, b.BlockNo())
+				if act == "equivocate" && best.BlockNo() > 0 && (equivocators[k] || len(equivocators) < f) {
+					equivocators[k] = true
+					pp, err := nd.CS.GetBlock(best.GetHeader().GetPrevBlockHash())
+					if err == nil {
+						extra = mkBlock(k, nd, pp, ts+1e6, s.lastNo[k])
+						desc += fmt.Sprintf("+equiv@%d", extra.BlockNo())
+						s.forks++
+						s.private[k], s.privLast[k] = extra, extra.BlockNo()
+						if attack && attackFrom > nslots {
+							attackFrom = j + 1 + rapid.IntRange(0, 8).Draw(t, "silenceAfter")
+						}
+					}
+				}
+				s.lastNo[k] = b.BlockNo()
 			}
-			s.lastNo[k] = b.BlockNo()
 			s.deliver(k, b, fmt.Sprintf("slot %d: node %d connects its own block %d", j, k, b.BlockNo()))
 			for x := 0; x < n; x++ {
 				if x == k {
@@ -314,8 +441,76 @@ func TestC08Finality(t *testing.T) {
 		if s.libAdvances >= 2 {
 			cl = append(cl, "lib-advanced>=2")
 		}
+		if s.privateExt > 0 {
+			cl = append(cl, "private-branch-extended")
+		}
+		if s.overtakes > 0 {
+			cl = append(cl, "private-branch-longer-than-its-producer's-main-chain")
+		}
 		rec.Case(strings.Join(cl, ","), fmt.Sprintf("%d|%s", n, strings.Join(s.hist, "|")), s.libAdvances >= 2 && (s.forks > 0 || s.restarts > 0), func() interface{} {
 			return map[string]interface{}{"producers": n, "schedule": s.hist, "max_lib": maxLib}
 		})
+	}
+}
+
+// TestC08StaleProposalsAfterReorg replays, as a plain scripted schedule, the history with which the generated check
+// found that pre-LIB proposals of an abandoned branch survived a reorganisation (fixed in the repository, see
+// known_findings.json: dpos-stale-proposals-after-reorg): four producers, p0 forks at genesis and keeps extending its
+// private branch while the others are silent until it is longer than the main chain of four blocks, the nodes (LIB
+// still 0) switch to it, and two correct producers then
+// build on it. Every node must keep reporting a LIB that lies on its own main chain.
+func TestC08StaleProposalsAfterReorg(t *testing.T) {
+	rec := ev.New("C08", "stale-proposals")
+	defer rec.Flush()
+	s := newSim(t, 4, true, false)
+	defer s.close()
+	gen := s.nodes[0].Best()
+	cur := -1
+	next := func(k int) int64 {
+		for cur++; s.ownerOf(cur) != k; cur++ {
+		}
+		return slotTime(cur)
+	}
+	all := func(b *types.Block, what string) {
+		for x := range s.nodes {
+			s.deliver(x, b, fmt.Sprintf("%s to node %d", what, x))
+		}
+		s.hist = append(s.hist, what)
+	}
+	a1 := s.mkBlock(1, s.nodes[1], gen, next(1), 0)
+	all(a1, "p1->1")
+	ts := next(0)
+	a2 := s.mkBlock(0, s.nodes[0], a1, ts, 0)
+	x1 := s.mkBlock(0, s.nodes[0], gen, ts+1e6, 0)
+	all(a2, "p0->2")
+	all(x1, "p0->1' (equivocation on genesis)")
+	a3 := s.mkBlock(2, s.nodes[2], a2, next(2), 0)
+	all(a3, "p2->3")
+	a4 := s.mkBlock(3, s.nodes[3], a3, next(3), 0)
+	all(a4, "p3->4")
+	x2 := s.mkBlock(0, s.nodes[0], x1, next(0), 1)
+	all(x2, "p0->2'")
+	x3 := s.mkBlock(0, s.nodes[0], x2, next(0), 2)
+	all(x3, "p0->3'")
+	x4 := s.mkBlock(0, s.nodes[0], x3, next(0), 3)
+	all(x4, "p0->4'")
+	x5 := s.mkBlock(0, s.nodes[0], x4, next(0), 4)
+	all(x5, "p0->5'")
+	switched := 0
+	for _, nd := range s.nodes {
+		if bytes.Equal(nd.Best().BlockHash(), x5.BlockHash()) {
+			switched++
+		}
+	}
+	b6 := s.mkBlock(2, s.nodes[2], x5, next(2), 3)
+	all(b6, "p2->6 on the private branch")
+	b7 := s.mkBlock(1, s.nodes[1], b6, next(1), 1)
+	all(b7, "p1->7")
+	b8 := s.mkBlock(3, s.nodes[3], b7, next(3), 4)
+	all(b8, "p3->8")
+	b9 := s.mkBlock(2, s.nodes[2], b8, next(2), 6)
+	all(b9, "p2->9")
+	rec.Case("scripted", "stale-proposals", switched > 0, func() interface{} {
+		return map[string]interface{}{"schedule": s.hist, "nodes that switched to the private branch": switched, "final LIBs": fmt.Sprint(s.libNo)}
 	})
 }
